@@ -529,6 +529,11 @@ func convoScript(r *rand.Rand, counts [5]int, tailClass int) *peer.Script {
 	if rem := bl % 8; rem != 0 {
 		id[nb-1] &= byte(0xff << (8 - rem))
 	}
+	if convoScripts%5 == 3 {
+		// gnb_id holds one octet more than gnb_bitlength needs (a 4-octet id with a bit length of 24): the gNB id announced is
+		// its first gnb_bitlength bits
+		id = append(id, byte(1+r.Intn(0x7f)))
+	}
 	c.GnbID = hex.EncodeToString(id)
 	names := []string{"gnb-" + rdigits(r, 1+r.Intn(8)), "open5gs", "g", "STGUTG-gNB." + rdigits(r, 3), "a-rather-long-ran-node-name-" + rdigits(r, 20)}
 	c.GnbName = names[r.Intn(len(names))]
